@@ -196,6 +196,18 @@ CHECKS = {
         note="Trusted: Names.tla's code-point order as the definition of 'the library's name order'; C++ via the Eigen stand-in.",
         technique="TLA+ specs (Binding.tla exhaustive; Formak.tla renaming invariant) + spec->code replay of originals and renamed twins",
     ),
+    "C08": dict(
+        category="translation_validation",
+        text="Every compiled block (model, process/control Jacobian, sensor model, sensor Jacobian) of TLC-drawn definitions with many shared "
+             "sub-terms is extracted as a straight-line program -- Python through the guarded hook (post-CSE sympy program), C++ by parsing the "
+             "generated function bodies -- and validated by TLC (CSE_Trace.tla): the spec derives the ORIGINAL expressions itself, checks that "
+             "every temporary is assigned once, before use, from inputs and earlier temporaries, and that the program's value equals the "
+             "original's exactly on the scenario's points. The same scenarios are executed with CSE off and on in both back-ends.",
+        design_ref="DESIGN.md section 4 C08",
+        note="Trusted: the sympy->tree and C-expression->tree converters (unsupported syntax is dropped and counted, never judged); exact "
+             "rational evaluation for the rational fragment, reference interpreter for elementary functions.",
+        technique="code->spec trace validation of extracted post-CSE programs against a TLA+ spec (CSE_Trace.tla: well-formed SSA + exact equivalence)",
+    ),
 }
 
 NOT_YET = "check not built yet (work in progress; see DESIGN.md section 8 build order)"
